@@ -1,7 +1,49 @@
 import ComposeVerif.Ops.Common
-/-! line-protocol ops for C11 (filled in by the property's owner) -/
+import ComposeVerif.Model.C11Defaults
+import ComposeVerif.Model.C11Normalize
+import ComposeVerif.Gen.Tables
+/-! line-protocol ops for C11: `c11.normalize`, `c11.setDefaults`, `c11.canonical`, `c11.dependsOn`,
+`c11.envFile`, `c11.clean` -/
+open Lean
 namespace CV.Ops.C11
+open CV CV.C11
 
-def handlers : List (String × Handler) := []
+def outVal : Out Val → Json
+  | .ok v => Json.mkObj [("ok", v.toJson)]
+  | .err _ => Json.mkObj [("err", "err")]          -- error texts / classes are not compared (map order decides which one is reported)
+  | .panic s => Json.mkObj [("panic", s)]
+
+def getVal (j : Json) (k : String) : Except String Val :=
+  match j.getObjVal? k with
+  | .ok v => Val.ofJson v
+  | .error e => .error e
+
+def bad (e : String) : Json := Json.mkObj [("bad", e)]
+
+def normalizeOp : Handler := fun args =>
+  match getVal args "dict" with
+  | .ok (.map d) =>
+    let env := getStrMap args "env"
+    outVal ((normalize pathClean env d).map Val.map)
+  | .ok _ => bad "dict is not a mapping"
+  | .error e => bad e
+
+def setDefaultsOp : Handler := fun args =>
+  match getVal args "dict" with
+  | .ok (.map d) => outVal (setDefaultValues CV.Gen.defaultValues d)
+  | .ok _ => bad "dict is not a mapping"
+  | .error e => bad e
+
+def canonicalOp : Handler := fun args =>
+  match getVal args "dict" with
+  | .ok (.map d) => outVal (canonicalLite d)
+  | .ok _ => bad "dict is not a mapping"
+  | .error e => bad e
+
+def cleanOp : Handler := fun args =>
+  Json.mkObj [("ok", Json.str (pathClean (getStr args "s")))]
+
+def handlers : List (String × Handler) :=
+  [("c11.normalize", normalizeOp), ("c11.setDefaults", setDefaultsOp), ("c11.canonical", canonicalOp), ("c11.clean", cleanOp)]
 
 end CV.Ops.C11
